@@ -136,6 +136,11 @@ def check_property(prop, tier, jobs, use_cache=True):
             print(c.get('reason'))
         print(f"CHECKER-CRASH property={prop}")
         return 3
+    # a cover obligation asks that the site is reachable on SOME path (vacuity guard); infeasible extra paths are fine
+    for o in obligations.values():
+        if o['kind'] == 'cover' and o['discharged'] > 0:
+            o['failed'] = []
+            o['unknown'] = 0
     n_obl = len(obligations)
     n_ok = sum(1 for o in obligations.values() if not o['failed'] and not o['unknown'])
     for o in obligations.values():
